@@ -11,7 +11,7 @@ from harness import gen_values as gv
 from harness import valcodec as vc
 
 STREAMS = ['codec-valid', 'codec-large', 'codec-small-types', 'codec-malformed-values', 'codec-malformed-data',
-           'codec-limits', 'codec-mixed-variants', 'codec-deep-variants']
+           'codec-limits', 'codec-mixed-variants', 'codec-deep-variants', 'codec-history']
 THEOREMS = ['Spec.decode_encode', 'C01_roundtrip', 'C01_roundtrip_valid', 'C01_roundtrip_conf', 'C01_roundtrip_checked', 'C01_marshal_arity',
             'C01_roundtrip_any_fuel', 'C01_roundtrip_fuel_free', 'C01_roundtrip_valid_fuel_free',
             'C01_roundtrip_noVariant_fuel_free', 'C01_roundtrip_conf_fuel_free', 'C01_roundtrip_checked_fuel_free']
@@ -181,21 +181,25 @@ def roundtrip_failure(sig, pvs, expected, fds_expected, off, le, initial_fds=(),
     """None if the implementation round-trips this case, else (what, observed).  The statement asks for
     equal values and equal byte counts when decoding with the descriptor list that `marshal` filled; HOW the
     encoder numbers descriptors is not C01's business (only recorded in `notes`)."""
-    r = impl_marshal(sig, pvs, off, le, list(initial_fds))
+    if initial_fds == 'omit':          # the `oobFDs` keyword left out on both sides (signatures without descriptors)
+        r = call_marshal(sig, pvs, off, le, OMIT)
+        initial_fds = ()
+    else:
+        r = impl_marshal(sig, pvs, off, le, list(initial_fds))
     if r[0] != 'ok':
         return ('marshal raised %s on conforming values' % r[1], canon_marshal(r))
     _, n, b, oob = r
     if n != len(b):
         return ('marshal reports %d bytes but produced %d' % (n, len(b)), canon_marshal(r))
     data = PREFIX[:off] + b + SUFFIX
-    u = impl_unmarshal(sig, data, off, le, oob)
+    u = call_unmarshal(sig, data, off, le, OMIT) if oob is None else impl_unmarshal(sig, data, off, le, oob)
     if u[0] != 'ok':
         return ('unmarshal raised %s on the bytes marshal produced' % u[1], canon_unmarshal(u))
     if u[1] != n:
         return ('unmarshal consumed %d bytes, marshal produced %d' % (u[1], n), canon_unmarshal(u))
     if not py_equal(expected, u[2]):
         return ('decoded value differs from the encoded one', canon_unmarshal(u))
-    if notes is not None and [repr(x) for x in oob] != [repr(x) for x in list(initial_fds) + list(fds_expected)]:
+    if notes is not None and oob is not None and [repr(x) for x in oob] != [repr(x) for x in list(initial_fds) + list(fds_expected)]:
         notes.append('descriptor-list-not-in-wire-order')
     return None
 
@@ -395,7 +399,9 @@ def check_unmarshal_batch(ctx, stream, batch):
 def case_json(sig, pvs, off, le, initial_fds=()):
     """`pvs` is the variableList as handed to marshal() (a list, a tuple or an object with dbusOrder)."""
     d = {'sig': sig, 'values': vc.to_line(pvs), 'off': off, 'le': le}
-    if initial_fds:
+    if initial_fds == 'omit':
+        d['fds'] = 'omit'
+    elif initial_fds:
         d['initial_fds'] = vc.to_line(list(initial_fds))
     return d
 
@@ -410,6 +416,9 @@ def run_valid_case(ctx, stream, tys, svs, pvs, fds, expected, mbatch, ubatch, of
     if 'h' in sig:
         runs += [(le, offsets[0], tuple(INITIAL_FDS)) for le in (True, False)]
         ctx.stat('initial-oobFDs-non-empty', 2)
+    else:
+        runs += [(ctx.cases % 2 == 0, offsets[ctx.cases % len(offsets)], 'omit')]
+        ctx.stat('oobFDs-keyword-omitted')
     for le, off, init in runs:
         fail = roundtrip_failure(sig, pvs, expected, fds, off, le, init, notes)
         ctx.impl_trace()
@@ -572,6 +581,367 @@ def run_deep_variants(ctx, rng):
              % (len(keep), compared_beyond))
 
 
+# ------------------------------------------------------------------------------------------ histories (state-leak round)
+# A history is a list of JSON steps run one after the other in ONE process on the once-imported txdbus; every judged step
+# is judged by the same absolute oracle as a single case (round trip / reference bytes / reference value), so a step can only
+# fail because of what EARLIER steps left behind (or because the code is plainly wrong).  The whole history up to the
+# failing step is the replay input: `check.py --replay` starts a fresh process and runs it again.
+#
+#   {'op': 'rt',  'sig', 'values' (line), 'expected' (line), 'off', 'le', 'fds'}        marshal, unmarshal, compare (C01's oracle)
+#   {'op': 'enc', 'sig', 'values', 'off', 'le', 'fds' [, 'want': hex] [, 'only_if_ok': true] [, 'same_as': k]}
+#         marshal only.  'want': the bytes of the reference encoder (judged; with 'only_if_ok' only when marshal returns);
+#         'same_as': the outcome must equal the outcome of step k (the identical call); neither: not judged (a call that is
+#         expected to fail and leave its mess behind)
+#   {'op': 'dec', 'sig', 'data': hex, 'off', 'le', 'fds' [, 'want': line, 'want_n': n]}  unmarshal only (judged iff 'want')
+#   'fds': 'omit' (keyword left out) | 'none' | 'shared' (ONE list object for the whole history) | a line `L n ..` (a new list)
+OMIT = 'omit'
+
+
+def call_marshal(sig, values, off, le, fds):
+    """`fds`: OMIT, None, or a list that is used AS IS (not copied) -> like impl_marshal."""
+    from txdbus import marshal as m
+    try:
+        if isinstance(fds, str):          # OMIT
+            n, chunks = m.marshal(sig, values, off, le)
+        else:
+            n, chunks = m.marshal(sig, values, off, le, fds)
+        b = b''.join(bytes(c) for c in chunks)
+        if isinstance(chunks, list):
+            del chunks[:]                 # the returned list is the caller's: whatever is done to it must not matter later
+        return ('ok', n, b, list(fds) if isinstance(fds, list) else None)
+    except Exception as e:          # noqa: BLE001
+        return ('err', exc_name(e))
+
+
+def call_unmarshal(sig, data, off, le, fds):
+    from txdbus import marshal as m
+    try:
+        if isinstance(fds, str):          # OMIT
+            n, vals = m.unmarshal(sig, data, off, le)
+        else:
+            n, vals = m.unmarshal(sig, data, off, le, fds)
+        return ('ok', n, vals)
+    except Exception as e:          # noqa: BLE001
+        return ('err', exc_name(e))
+
+
+def scramble(v):
+    """Empty every list / dict of a returned value in place (the value belongs to the caller)."""
+    if isinstance(v, list):
+        for e in v:
+            scramble(e)
+        del v[:]
+    elif isinstance(v, dict):
+        for e in v.values():
+            scramble(e)
+        v.clear()
+
+
+def _resolve_fds(step, shared):
+    f = step.get('fds', 'L 0')
+    if f == 'omit':
+        return OMIT
+    if f == 'none':
+        return None
+    if f == 'shared':
+        return shared
+    return list(vc.from_line(f))
+
+
+def _model_fds(fds):
+    return list(fds) if isinstance(fds, list) else None
+
+
+def _enc_key(r, want):
+    if r[0] != 'ok':
+        return 'encode-raises'
+    if len(r[2]) != len(want) or r[1] != len(want):
+        return 'encode-length'
+    return 'encode-bytes'
+
+
+def _dec_key(u, n):
+    if u[0] != 'ok':
+        return 'decode-raises'
+    if u[1] != n:
+        return 'decode-length'
+    return 'decode-value'
+
+
+def run_history(steps, extra_ops=None):
+    """-> (failure or None, pairs).  failure = {'step', 'key', 'what', 'observed', 'expected'} of the FIRST judged step
+    that fails (the history stops there); pairs = [(driver line, canonical outcome of the implementation at that moment)]."""
+    register()
+    shared, outcomes, pairs = [], [], []
+
+    def pair(mk, impl):
+        try:
+            pairs.append((mk(), impl))
+        except ValueError:
+            pass
+
+    def fail(i, key, what, observed, expected):
+        return {'step': i, 'key': key, 'what': what, 'observed': observed, 'expected': expected}, pairs
+    for i, st in enumerate(steps):
+        op = st['op']
+        if extra_ops and op in extra_ops:
+            bad = extra_ops[op](st)
+            outcomes.append(None)
+            if bad:
+                return fail(i, bad[0], bad[1], bad[2], bad[3])
+            continue
+        sig, off, le = st['sig'], st['off'], st['le']
+        fds = _resolve_fds(st, shared)
+        if op in ('rt', 'enc'):
+            values = vc.from_line(st['values'])
+            before = _model_fds(fds)
+            r = call_marshal(sig, values, off, le, fds)
+            out = canon_marshal(r)
+            outcomes.append(out)
+            pair(lambda: marshal_line(sig, values, off, le, before), out)
+            if op == 'enc':
+                if 'want' in st and not (r[0] != 'ok' and st.get('only_if_ok')):
+                    want = bytes.fromhex(st['want'])
+                    if r[0] != 'ok' or r[2] != want or r[1] != len(want):
+                        return fail(i, _enc_key(r, want), 'marshal bytes differ from the DBus wire format', out,
+                                    'ok %d %s' % (len(want), vc.bytes_hex(want)))
+                if 'same_as' in st and outcomes[st['same_as']] != out:
+                    return fail(i, 'same-call-different-outcome', 'the same marshal call (step %d) had another outcome'
+                                % st['same_as'], out, outcomes[st['same_as']])
+                continue
+            expected = vc.from_line(st['expected'])
+            if r[0] != 'ok':
+                return fail(i, 'roundtrip-marshal-raises', 'marshal raised %s on conforming values' % r[1], out, 'ok ...')
+            _, n, b, _ = r
+            if n != len(b):
+                return fail(i, 'roundtrip-byte-count', 'marshal reports %d bytes but produced %d' % (n, len(b)), out, None)
+            data = PREFIX[:off] + b + SUFFIX
+            dbefore = _model_fds(fds)
+            u = call_unmarshal(sig, data, off, le, fds)
+            uout = canon_unmarshal(u)
+            pair(lambda: unmarshal_line(sig, data, off, le, dbefore), uout)
+            want = 'ok %d %s' % (n, st['expected'])
+            if u[0] != 'ok':
+                return fail(i, 'roundtrip-unmarshal-raises', 'unmarshal raised %s on the bytes marshal produced' % u[1], uout, want)
+            if u[1] != n:
+                return fail(i, 'roundtrip-byte-count', 'unmarshal consumed %d bytes, marshal produced %d' % (u[1], n), uout, want)
+            if not py_equal(expected, u[2]):
+                return fail(i, 'roundtrip-value-differs', 'decoded value differs from the encoded one', uout, want)
+            scramble(u[2])
+        elif op == 'dec':
+            data = bytes.fromhex(st['data'])
+            dbefore = _model_fds(fds)
+            u = call_unmarshal(sig, data, off, le, fds)
+            uout = canon_unmarshal(u)
+            outcomes.append(uout)
+            pair(lambda: unmarshal_line(sig, data, off, le, dbefore), uout)
+            if 'want' in st:
+                n = st['want_n']
+                if not (u[0] == 'ok' and u[1] == n and py_equal(vc.from_line(st['want']), u[2])):
+                    return fail(i, _dec_key(u, n), 'unmarshal of a spec-conformant encoding does not return the value',
+                                uout[:4000], 'ok %d %s' % (n, st['want']))
+            if u[0] == 'ok':
+                scramble(u[2])
+        else:
+            raise ValueError('unknown history step %r' % (op,))
+    return None, pairs
+
+
+def report_history(ctx, stream, name, steps, pairs_out=None, extra_ops=None, prefix='C01 round trip'):
+    """Run one history, count it, report the first failing step with the history up to it as the (replayable) input."""
+    ctx.case(stream, sample={'history': name, 'first': {k: v for k, v in steps[0].items() if k in ('op', 'sig', 'values', 'cls')},
+                             'steps': len(steps)})
+    ctx.stat('history:%s' % name.split(':')[0])
+    ctx.stat('history-steps', len(steps))
+    ctx.impl_trace(len(steps))
+    bad, pairs = run_history(steps, extra_ops)
+    if pairs_out is not None:
+        pairs_out.extend(pairs)
+    if bad:
+        i = bad['step']
+        ctx.violation('history-' + bad['key'], '%s, step %d of a history (%s): %s' % (prefix, i + 1, name, bad['what']),
+                      inp={'history': steps[:i + 1], 'name': name}, observed=bad['observed'], expected=bad['expected'])
+    return bad
+
+
+def check_pairs(ctx, stream, pairs):
+    """Model vs implementation on every marshal / unmarshal call a history made: the model is a function of the
+    arguments, so any dependence of the implementation on what happened before shows as a disagreement."""
+    out = ctx.model([ln for ln, _ in pairs])
+    if out is None:
+        return
+    for (ln, impl), o in zip(pairs, out):
+        if o != impl:
+            ctx.disagree(stream, {'op': ln.split()[0], 'line': ln, 'note': 'inside a history: replaying the line alone may agree'},
+                         o, impl)
+
+
+def _fds_mode(rng, sig, shared_ok=True):
+    if 'h' in sig:
+        return rng.choice(['shared', 'shared', 'L 0', vc.to_line(list(INITIAL_FDS))]) if shared_ok else 'L 0'
+    return rng.choice(['omit', 'omit', 'none', 'L 0'])
+
+
+def make_rt(rng, tys, off, le, fds_mode, svs=None, depth=2):
+    """An 'rt' step for the types (fresh conforming values unless `svs` is given) -> (step, svs, top-level values as a list)."""
+    sig = gv.render_all(tys)
+    for _ in range(60):
+        try:
+            s = svs if svs is not None else [gv.gen_spec(rng, t, depth) for t in tys]
+            pvs = [gv.to_python(rng, t, x) for t, x in zip(tys, s)]
+            top, _ = gv.top_spelling(rng, pvs)
+            expected = [gv.expected_decoded(t, x) for t, x in zip(tys, s)]
+            step = {'op': 'rt', 'sig': sig, 'values': vc.to_line(top), 'expected': vc.to_line(expected), 'off': off, 'le': le,
+                    'fds': fds_mode}
+            return step, s, pvs
+        except (gv.Retry, ValueError):
+            continue
+    raise RuntimeError('could not make a round-trip step for %s' % sig)
+
+
+def _poison_steps(rng, tys, fds_mode, pool, k):
+    """`k` calls on the signature that are expected to fail part-way (none of them is judged)."""
+    from harness import c02_ref
+    sig = gv.render_all(tys)
+    out = []
+    for _ in range(k * 4):
+        if len(out) >= k:
+            break
+        kind = rng.choice(['few', 'few', 'slot', 'truncated', 'damaged', 'many'])
+        off, le = rng.randrange(16), rng.random() < 0.5
+        try:
+            step, svs, pvs = make_rt(rng, tys, off, le, fds_mode)
+            if kind == 'few':
+                vals = list(pvs[:rng.randrange(len(pvs))])
+            elif kind == 'many':
+                vals = list(pvs) + [rng.choice([0, 'x', None])]
+            elif kind == 'slot':
+                vals = mutate_value(rng, list(pvs), pool)
+            if kind in ('few', 'many', 'slot'):
+                out.append({'op': 'enc', 'sig': sig, 'values': vc.to_line(vals), 'off': off, 'le': le, 'fds': fds_mode,
+                            'poison': kind})
+                continue
+            body = c02_ref.encode(tys, svs, off, le)
+            if kind == 'truncated':
+                if not body:
+                    continue
+                body = body[:rng.randrange(len(body))]
+            else:
+                kind, body = gv.damage(rng, body, le)
+            fds = []
+            for t, x in zip(tys, svs):
+                gv.collect_fds(t, x, fds)
+            out.append({'op': 'dec', 'sig': sig, 'data': (PREFIX[:off] + body).hex(), 'off': off, 'le': le,
+                        'fds': vc.to_line(fds) if 'h' in sig else rng.choice(['omit', 'none', 'L 0']), 'poison': kind})
+        except ValueError:
+            continue
+    return out
+
+
+def gen_suffix_history(rng, used, pool, want_fd):
+    """G8 (i) + (iii): signatures sharing the suffix S - `X a S`, `S`, `(S)`, `a(S)` - round-tripped, then calls on them that
+    fail part-way, then the same signatures again (other order, other offset and byte order, partly the same values).  With
+    descriptors, every call of the history may use the ONE shared oobFDs list (a failed marshal leaves its descriptors in it)."""
+    S, shapes = gv.suffix_shapes(rng, used, want_fd)
+    names = list(shapes)
+    order = names if rng.random() < 0.5 else rng.sample(names, len(names))
+    steps, firsts = [], {}
+    mode = {nm: _fds_mode(rng, gv.render_all(shapes[nm])) for nm in names}
+    for nm in order:
+        st, svs, _ = make_rt(rng, shapes[nm], rng.randrange(16), rng.random() < 0.5, mode[nm])
+        firsts[nm] = (st, svs)
+        steps.append(st)
+    for nm in rng.sample(names, rng.choice([1, 2, 2, 3])):
+        steps += _poison_steps(rng, shapes[nm], mode[nm], pool, rng.choice([1, 1, 2, 3]))
+    for nm in rng.sample(names, len(names)):
+        st0, svs = firsts[nm]
+        off, le = rng.randrange(16), rng.random() < 0.5
+        r = rng.random()
+        if r < 0.4:                                # the same Python values at another place
+            steps.append(dict(st0, off=off, le=le))
+        elif r < 0.6 and 'h' in st0['sig']:        # the same bytes, other descriptor objects, each time a list of its own
+            a = dict(st0, fds='L 0')
+            svs2 = [gv.map_fds(t, x, lambda d: d + 1000) for t, x in zip(shapes[nm], svs)]
+            b, _, _ = make_rt(rng, shapes[nm], st0['off'], st0['le'], 'L 0', svs2)
+            steps += [a, b]
+        else:
+            steps.append(make_rt(rng, shapes[nm], off, le, mode[nm])[0])
+    return 'suffix' + ('-fds' if want_fd else ''), steps
+
+
+OMITTED_SIGS = ['h', 'ah', '(hs)', 'sh', 'a{sh}', 'yah', '(y(h))', 'hh']
+
+
+def gen_omitted_history(rng, sig):
+    """G2: the same call without the `oobFDs` keyword twice, a call with a list of its own in between, the first call again."""
+    tys = gv.parse_sig(sig)
+    off, le = rng.randrange(16), rng.random() < 0.5
+    rt0, svs, pvs = make_rt(rng, tys, off, le, 'L 0')
+    enc = {'op': 'enc', 'sig': sig, 'values': rt0['values'], 'off': off, 'le': le, 'fds': 'omit'}
+    steps = [dict(enc), dict(enc, same_as=0), rt0, dict(enc, same_as=0),
+             make_rt(rng, tys, off, le, vc.to_line(list(INITIAL_FDS)))[0], dict(enc, same_as=0),
+             {'op': 'enc', 'sig': sig, 'values': vc.to_line(list(pvs[:-1])), 'off': off, 'le': le, 'fds': 'omit', 'poison': 'few'},
+             dict(enc, same_as=0), dict(rt0, fds='L 0')]
+    return 'omitted', steps
+
+
+BURST_FAILS = [('enc', 'i', "L 1 s 000078"), ('enc', '(ii)', "L 1 U 1 i 1"), ('enc', 'ai', "L 1 L 2 i 1 s 000078"),
+               ('enc', 'a{sv}', "L 1 D 1 s 00006b N"), ('enc', 's', "L 1 i 5"), ('enc', 'iii', "L 2 i 1 i 2"),
+               ('enc', '((((i))))', "L 1 U 1 U 1 U 1 U 1 s 000078"), ('enc', 'aai', "L 1 L 2 L 1 i 1 L 1 N"),
+               ('enc', 'v', "L 1 N"), ('enc', 'ah', "L 1 L 2 i 3 s 000078"),
+               ('dec', 's', '05000000'), ('dec', 'ai', '08000000'), ('dec', 'v', '017a0007'), ('dec', 'a{sv}', '10000000'),
+               ('dec', '(ii)', '0100'), ('dec', 'aai', '0c00000004000000'), ('dec', 'g', '05'), ('dec', 'iii', '0100000002')]
+BURST_VALID = ['i', '(ii)', 'ai', 'a{sv}', 's', 'iii', '((((i))))', 'aai', 'v', 'ah', 'g']
+
+
+def gen_burst_history(rng, n):
+    """Many failing calls in a row (`n` of them, every kind, nested ones included), then every signature involved must still
+    round-trip: a counter or a flag that each exception leaves one step further off shows after enough of them."""
+    before = [make_rt(rng, gv.parse_sig(s), rng.randrange(16), rng.random() < 0.5, 'shared' if 'h' in s else 'omit')[0]
+              for s in BURST_VALID[:4]]
+    steps = list(before)
+    for j in range(n):
+        op, sig, arg = BURST_FAILS[j % len(BURST_FAILS)]
+        le = (j // len(BURST_FAILS)) % 2 == 0
+        if op == 'enc':
+            steps.append({'op': 'enc', 'sig': sig, 'values': arg, 'off': j % 8, 'le': le, 'fds': 'shared' if 'h' in sig else 'omit',
+                          'poison': 'burst'})
+        else:
+            steps.append({'op': 'dec', 'sig': sig, 'data': arg, 'off': 0, 'le': True, 'fds': 'omit', 'poison': 'burst'})
+    for s in BURST_VALID:
+        steps.append(make_rt(rng, gv.parse_sig(s), rng.randrange(16), rng.random() < 0.5, 'shared' if 'h' in s else 'omit')[0])
+    steps += [dict(st, off=(st['off'] + 3) % 16, le=not st['le']) for st in before]
+    return 'burst', steps
+
+
+def run_histories(ctx, pool):
+    """Stream codec-history.  Own random stream (the older streams draw what they drew before); runs BEFORE them, so that
+    the signatures of a history are met for the first time in this process as far as possible."""
+    import random
+    rng = random.Random(repr((ctx.seed, 'C01', 'history', ctx.widen)))
+    used, pairs = set(), []
+    for _, case in ctx.corpus():           # signatures the corpus has already used in this process
+        inp = case.get('input', case)
+        if isinstance(inp, dict) and isinstance(inp.get('sig'), str):
+            used.add(inp['sig'])
+    n = ctx.scale(quick=120, thorough=3000)
+    for i in range(n):
+        name, steps = gen_suffix_history(rng, used, pool, want_fd=(i % 3 == 2))
+        report_history(ctx, 'codec-history', name, steps, pairs)
+    for sig in OMITTED_SIGS:
+        name, steps = gen_omitted_history(rng, sig)
+        report_history(ctx, 'codec-history', name, steps, pairs)
+    for i in range(ctx.scale(quick=10, thorough=200)):
+        S, _ = gv.suffix_shapes(rng, used, want_fd=True)
+        name, steps = gen_omitted_history(rng, gv.render_all(S))
+        report_history(ctx, 'codec-history', name, steps, pairs)
+    for n_fail in ([40, 130] if ctx.tier == 'quick' else [1, 7, 40, 130, 400, 1100]):
+        name, steps = gen_burst_history(rng, n_fail)
+        report_history(ctx, 'codec-history', name, steps, pairs)
+    ctx.note('codec-history: %d marshal / unmarshal calls inside histories compared with the (history-free) model' % len(pairs))
+    check_pairs(ctx, 'codec-history', pairs)
+
+
 def run(ctx):
     register()
     rng = ctx.rng
@@ -581,6 +951,9 @@ def run(ctx):
     # ---- corpus first
     for name, case in ctx.corpus():
         replay_case(ctx, case, 'corpus:' + name)
+
+    # ---- histories: later uses inside one scenario (suffix signatures, fail-then-succeed, oobFDs omitted / shared)
+    run_histories(ctx, pool)
 
     # ---- stream A: valid cases
     n = ctx.scale(quick=800, thorough=30000)
@@ -719,6 +1092,11 @@ def replay_case(ctx, case, stream):
     """A corpus / replay input: {'sig', 'values' (line), 'off', 'le'} (round trip) or {'op': ..., 'line': ...}."""
     register()
     inp = case.get('input', case)
+    if 'history' in inp:
+        pairs = []
+        report_history(ctx, stream, inp.get('name', 'replay'), inp['history'], pairs)
+        check_pairs(ctx, stream, pairs)
+        return
     if 'line' in inp:
         toks = inp['line'].split()
         out = ctx.model([inp['line']])
@@ -738,10 +1116,12 @@ def replay_case(ctx, case, stream):
     sig, off, le = inp['sig'], inp['off'], inp['le']
     pvs = vc.from_line(inp['values'])
     init = vc.from_line(inp['initial_fds']) if 'initial_fds' in inp else []
+    if inp.get('fds') == 'omit':
+        init = 'omit'
     tys = gv.parse_sig(sig)
     ctx.case(stream, sample=inp)
     # expected decoding: the normal form of the values themselves
-    r = impl_marshal(sig, pvs, off, le, list(init))
+    r = call_marshal(sig, pvs, off, le, OMIT) if init == 'omit' else impl_marshal(sig, pvs, off, le, list(init))
     expected = inp.get('expected')
     if expected is not None:
         expected = vc.from_line(expected)
@@ -751,7 +1131,7 @@ def replay_case(ctx, case, stream):
     if fail:
         ctx.violation(violation_key(fail[0]), 'C01 round trip: ' + fail[0], inp=case_json(sig, pvs, off, le, init),
                       observed=fail[1], expected='unmarshal(marshal(v)) == normalised v, equal byte counts')
-    out = ctx.model([marshal_line(sig, pvs, off, le, list(init))])
+    out = ctx.model([marshal_line(sig, pvs, off, le, None if init == 'omit' else list(init))])
     impl = canon_marshal(r)
     if out is not None and out[0] != impl:
         ctx.disagree(stream, inp, out[0], impl)
